@@ -1,6 +1,7 @@
 import Rbp.Model.Par
 import Rbp.Model.Run
 import Rbp.Model.Folder
+import Rbp.Props.C08
 /-!
 # C13 — output depends only on data directory and options, never on scheduling or reruns
 (logical core; that rayon's indexed `collect` implements this machine, and that LevelDB's log rewrite keeps the kv
@@ -50,6 +51,35 @@ theorem preexisting_irrelevant (ts fs : List String) (rows : List (String × Fd.
     (∀ n, n ∈ ts ∨ n ∈ fs → Fd.exec f (Fd.runProg ts rows fs) n = Fd.exec g (Fd.runProg ts rows fs) n) ∧
     (∀ n, n ∉ ts → n ∉ fs → Fd.exec f (Fd.runProg ts rows fs) n = f n) :=
   Fd.run_independent_of_folder ts fs rows f g hrows hlen
+
+theorem sumFor_perm (a : String) {l1 l2 : List (String × Nat)} (h : l1.Perm l2) : B.sumFor a l1 = B.sumFor a l2 := by
+  induction h with
+  | nil => rfl
+  | cons x _ ih => simp [B.sumFor, ih]
+  | swap x y l => simp only [B.sumFor]; omega
+  | trans _ _ ih1 ih2 => rw [ih1, ih2]
+
+theorem occurs_perm (a : String) {l1 l2 : List (String × Nat)} (h : l1.Perm l2) : B.occurs a l1 = B.occurs a l2 := by
+  induction h with
+  | nil => rfl
+  | cons x _ ih => simp [B.occurs, ih]
+  | swap x y l => simp only [B.occurs]; cases decide (x.1 = a) <;> cases decide (y.1 = a) <;> simp
+  | trans _ _ ih1 ih2 => rw [ih1, ih2]
+
+/-- **row sets of the hash-map dumps.**  The unspent and balances dumps iterate a hash map whose order depends on the hasher's
+    per-process random keys; their rows are a function of the map's *content* only: two maps with the same bindings — whatever
+    the insertion order, capacity or hash seeds that produced them — yield row lists that are permutations of each other -/
+theorem row_sets_depend_on_content_only (m1 m2 : Std.HashMap W.Bytes CB.Unspent) (h : ∀ k : W.Bytes, m1[k]? = m2[k]?) :
+    (CB.unspentRows m1).Perm (CB.unspentRows m2) ∧ (CB.balanceRows m1).Perm (CB.balanceRows m2) := by
+  have he : m1.Equiv m2 := Std.HashMap.Equiv.of_forall_getElem?_eq h
+  have hp := he.toList_perm
+  refine ⟨hp.map _, ?_⟩
+  -- per-address sums fold over the bindings: a permutation of the bindings gives a map with the same lookups
+  have hpp : (Rbp.Props.C08.pairs m1).Perm (Rbp.Props.C08.pairs m2) := hp.map _
+  have hb : ∀ a : String, (CB.balanceMap m1)[a]? = (CB.balanceMap m2)[a]? := by
+    intro a
+    rw [Rbp.Props.C08.balances_spec m1 a, Rbp.Props.C08.balances_spec m2 a, occurs_perm a hpp, sumFor_perm a hpp]
+  exact (Std.HashMap.Equiv.of_forall_getElem?_eq hb).toList_perm.map _
 
 /-- non-vacuity: a long stale tmp file and an older result are both replaced -/
 example : Fd.exec (fun n => if n = "blocks.csv.tmp" then some (List.replicate 50 7) else if n = "blocks-0-1.csv" then some [1] else none)
